@@ -66,7 +66,7 @@ Definition dec_arm (x : sx) : arm :=
     (1 (S ...) (T ...))    -> ((b ...) ...)  row i, column j: sub S_i T_j
     (2 T (v ...))          -> (b ...)        den T v
     (3 T (arm ...) (v ...))-> (acc (d ...) (i ...))   C33: acc = accepted T arms (1, 0, -1: union outside the model),
-                                                        d = den T v, i = rt_select arms v (the arm the model runs for v)
+                                                        d = den T v, i = rt_select arms (rt_wrap T v) (the arm the model runs for v)
     (4 (arm ...) ((i v) ...)) -> ((j k) ...)  C33: j = judge_arm arms i v (the arm that ran matches v), k = known_bool_int
     (5 (T ...))            -> ((w f) ...)    wf T (what the constructors build), frag T (the fragment of sub_sound)
     (6 (S M T) ...)        -> (k ...)        known_trans S M T: the known class of a failing transitivity instance, 0 none *)
@@ -88,7 +88,7 @@ Definition run (x : sx) : sx :=
     let vs := map dec_val (sx_l (sx_nth x 3)) in
     SL [match accepted t arms with Some b => sx_bool b | None => SZ (-1) end;
         SL (map (fun v => sx_bool (den t v)) vs);
-        SL (map (fun v => SZ (rt_select arms v)) vs)]
+        SL (map (fun v => SZ (rt_select arms (rt_wrap t v))) vs)]
   else if mode =? 4 then
     let arms := map dec_arm (sx_l (sx_nth x 1)) in
     SL (map (fun q => let i := sx_z (sx_nth q 0) in let v := dec_val (sx_nth q 1) in
